@@ -5,6 +5,7 @@
    exactly the recorded C01 map findings). *)
 From EDP Require Import Base.Bytes Term.Term Term.Value Gen.Tags Gen.DecoderArms.
 From EDP Require Import Codec.Encode Codec.Decode Codec.Norm Codec.RoundTrip Codec.RoundTrip2.
+From EDP Require Order.Cmp.
 
 (* 1. parse (enc t ++ rest) = norm t, rest — all 17 variants, arbitrary nesting, any fuel above the encoding's length *)
 Theorem C01_roundtrip_parse : forall cfg, d_arms cfg = owned_arms ->
@@ -43,6 +44,23 @@ Proof.
   split; [reflexivity|]. split; [vm_compute; reflexivity|].
   eexists. split; [vm_compute; reflexivity|]. vm_compute. reflexivity.
 Qed.
+
+(* the recorded findings C01-improper-empty-key and C01-map-catchall on the model, with the library's own key order and
+   insertion: a map that holds two entries in memory comes back from its own encoding with one *)
+Definition cfg_lib : dcfg :=
+  {| d_arms := owned_arms; d_cache := []; d_refs := []; d_inflate := fun _ => None; d_float_text := fun _ => None;
+     d_kcmp := Order.Cmp.cmp_owned; d_kinsert := Order.Cmp.map_insert; d_extra_fuel := 0 |}.
+
+Theorem C01_refuted_improper_empty_key :        (* #{a => 2, ImproperList{[], a} => 1} *)
+  let t := TMap [(TAtom [97], TInt 2); (TImproper [] (TAtom [97]), TInt 1)] in
+  t = TMap (Order.Cmp.map_of_list Order.Cmp.cmp_owned [(TImproper [] (TAtom [97]), TInt 1); (TAtom [97], TInt 2)]) /\
+  exists bs, encode t = EOk bs /\ decode cfg_lib bs = DOk (TMap [(TAtom [97], TInt 1)]).
+Proof. cbv zeta. split; [vm_compute; reflexivity|]. eexists. split; [vm_compute; reflexivity|]. vm_compute. reflexivity. Qed.
+
+Theorem C01_refuted_map_catchall :              (* #{[1] => 1, [1|2] => 2} as a peer writes it: one entry is read *)
+  decode cfg_lib [131; 116; 0; 0; 0; 2; 108; 0; 0; 0; 1; 97; 1; 106; 97; 1; 108; 0; 0; 0; 1; 97; 1; 97; 2; 97; 2]
+  = DOk (TMap [(TList [TInt 1], TInt 2)]).
+Proof. vm_compute. reflexivity. Qed.
 
 (* non-vacuity: a nested term with every kind of node satisfies the hypotheses (with the real key order this is
    checked by the correspondence run; here a trivial append-order stands in for it) *)
